@@ -192,6 +192,70 @@ def _clamped_sides(body, val):
     return lo, hi
 
 
+def _clamp_function_sides(hf):
+    """(lower, upper) for a one-parameter helper that returns its argument
+    restricted to [-1, 1]: `if p > 1: return 1`, `if p < -1: return -1`, a
+    conditional expression, or min/max/clip on the returned value."""
+    if hf is None or len(hf.args) != 1:
+        return False, False
+    p = hf.args[0][0]
+    lo = hi = False
+
+    def side_of(cond):
+        if cond.k != "cmp":
+            return None
+        op, l, r = cond.a[0], cond.a[1], cond.a[2]
+        if pp(r) == p and _num(l) is not None:
+            l, r = r, l
+            op = {"<": ">", ">": "<", "<=": ">=", ">=": "<="}.get(op, op)
+        if pp(l) != p or _num(r) is None:
+            return None
+        return ("hi" if op in (">", ">=") else "lo" if op in ("<", "<=") else None,
+                _num(r))
+
+    def ret_expr(e):
+        nonlocal lo, hi
+        if e.k == "cond":                      # a if c else b
+            sd = side_of(e.a[0])
+            if sd and _num(e.a[1]) == sd[1]:
+                if sd == ("hi", 1.0):
+                    hi = True
+                if sd == ("lo", -1.0):
+                    lo = True
+            ret_expr(e.a[2])
+            return
+        for c in walk(e):
+            if isinstance(c, X) and c.k == "call":
+                fn = pp(c.a[0]).split(".")[-1]
+                nums = [_num(a) for a in c.a[1]]
+                if fn in ("min", "fmin", "minimum") and 1.0 in nums:
+                    hi = True
+                if fn in ("max", "fmax", "maximum") and -1.0 in nums:
+                    lo = True
+                if fn == "clip" and len(nums) >= 3 and nums[1] == -1.0 and nums[2] == 1.0:
+                    lo = hi = True
+    for s_ in walk(hf.body):
+        if not isinstance(s_, X):
+            continue
+        if s_.k == "if":
+            for cond, b in s_.a[0]:
+                sd = side_of(cond)
+                if sd is None:
+                    continue
+                for st in b:
+                    if st.k == "return" and st.a and st.a[0] is not None and \
+                            _num(st.a[0]) == sd[1]:
+                        if sd == ("hi", 1.0):
+                            hi = True
+                        if sd == ("lo", -1.0):
+                            lo = True
+        elif s_.k == "return" and s_.a and s_.a[0] is not None:
+            ret_expr(s_.a[0])
+    # a clamp inside the helper on a local copy of the parameter counts too
+    l2, h2 = _clamped_sides(hf.body, p)
+    return lo or l2, hi or h2
+
+
 def g2(run: Run, prog: Program, cy: CyProgram):
     """Values reaching arccos are clamped to [-1, 1] on both sides."""
     # compiled: expr is clamped by an if/elif pair before the store
@@ -203,6 +267,23 @@ def g2(run: Run, prog: Program, cy: CyProgram):
               and any(t.k == "index" and pp(t.a[0]) == out for t in s.a[0])]
     val = pp(stores[0].a[1]) if stores else None
     lo, hi = _clamped_sides(f.body, val)
+    # the clamp may live in a helper of the same module: stored `H(e)`, or a
+    # local last assigned `v = H(...)`
+    def helper_of(e):
+        while e.k == "cast":
+            e = e.a[1]
+        if e.k == "call" and e.a[0].k == "name" and len(e.a[1]) == 1:
+            return f.module.funcs.get(e.a[0].a[0])
+        return None
+    cand = []
+    if stores:
+        cand.append(stores[0].a[1])
+        if stores[0].a[1].k == "name":
+            cand += [s_.a[1] for s_ in walk(f.body) if isinstance(s_, X)
+                     and s_.k == "assign" and pp(s_.a[0][0]) == val]
+    for e in cand:
+        l2, h2 = _clamp_function_sides(helper_of(e))
+        lo, hi = lo or l2, hi or h2
     for side, ok in (("upper", hi), ("lower", lo)):
         run.oblige("G2", f"_calculate_angular_distance:{side}-clamp", ok, sample={
             "where": f.where, "value": val})
@@ -312,7 +393,15 @@ def g3(run: Run, prog: Program):
     for c in ast.walk(ad.node):
         if isinstance(c, ast.Call) and isinstance(c.func, ast.Name) and \
                 c.func.id == "_calculate_angular_distance":
-            order = [ast.unparse(a) for a in c.args[:4]]
+            from .idioms import expand_starred_args, inline_locals
+            cargs = expand_starred_args(
+                c, lambda hn: (prog.lookup(gg, hn).node if prog.lookup(gg, hn) is not None
+                               else None))
+            if cargs is None:
+                run.unknowns.append(f"G3: {ad.where}: starred kernel arguments not "
+                                    f"expanded; argument order not decided")
+                continue
+            order = [ast.unparse(inline_locals(ad.node, a)) for a in cargs[:4]]
             want = ["cos_lat", "sin_lat", "cos_lon", "sin_lon"]
             ok = all(w in o for w, o in zip(want, order))
             expect("GeoGrid.angular_distance", "kernel-args", ok,
@@ -323,8 +412,10 @@ def g3(run: Run, prog: Program):
     m = gn.methods["set_node_weight_type"]
     from .idioms import private_closure
     src = "\n".join(ast.unparse(g.node) for g in private_closure(prog, gn, [m]))
-    ok = src.count(".grid.cos_lat()") >= 2 and "cos_lon" not in src and \
-        "sin_lat" not in src
+    # (how many branches / table rows use it is the author's choice: the weight
+    # types may be spelled as an if-chain or as a table of functions of cos_lat)
+    ok = src.count(".grid.cos_lat()") >= 1 and "cos_lon" not in src and \
+        "sin_lat" not in src and "sin_lon" not in src and "lon_sequence" not in src
     expect("GeoNetwork.set_node_weight_type", "cos-lat", ok, m.where,
            "geographic node weights must be (powers of) the cosine of latitude")
     # area-weighted measures take each node's area from its own latitude: the
